@@ -596,6 +596,9 @@ func configSpace(thorough bool) (cases []configCase, templates []configCase) {
 			add("passes/"+tpl.name+" as := "+as, configFiles(plainPipe, doc, noVeneers), doc)
 		}
 	}
+	// struct-level defaults through fields_set_default (defaults.go)
+	cases = append(cases, structDefaultConfigCases(plainPipe)...)
+
 	// every reference-taking pass on every object / field of the small schema
 	for _, o := range smallObjects {
 		for _, tpl := range []struct{ name, yaml string }{
